@@ -169,6 +169,16 @@ def inline_text(el):
     return s
 
 
+def _broken_precondition(form, broken):
+    name = broken["name"]
+    dlang = expect.default_language(form)
+    referred = any(("${%s}" % name) in v or ("${last-saved#%s}" % name) in v
+                   for n, _ in model.walk(form["nodes"]) if n["k"] != "x" for k, v in n["c"].items()
+                   if k not in ("type", "name") and not expect.shadowed(n["c"], k, dlang))
+    count = len(model.find_named(form).get(name, []))
+    return referred and (count == 0 if broken["mode"] == "missing" else count >= 2)
+
+
 def evaluate(case) -> Outcome:
     out = Outcome()
     form = case["form"]
@@ -176,6 +186,8 @@ def evaluate(case) -> Outcome:
     broken = case.get("broken")
     if case.get("layout"):
         out.label("layout-kind:" + case["layout"][3])
+    if broken and not _broken_precondition(form, broken):
+        broken = None  # (a shrunk case that lost the planted reference)
     if broken:
         out.checked("C03.negative")
         out.label("broken:" + broken["mode"])
